@@ -29,6 +29,29 @@ def build(v, O, dens_value, dens_unit, vol_value, vol_unit):
     if v.kind == 'subdict': return Substance({s: n for s, n in zip(v.spec, (v.n1, v.n2, v.n3))}, natural=v.natural, **kw)
     return Material({s: n for s, n in zip(v.spec, (v.n1, v.n2, v.n3))}, natural=v.natural, norm_type=NORMS[v.norm], **kw)
 '''
+ADD_SRC = '''
+def run(v, O):
+    out = []
+    for step in (0, 1, 2):
+        obj = build(v, O, v.d, v.u1, v.V, v.w1)
+        if step >= 1: obj.add(v.existing, v.n1)      # tops up a component that is already there
+        if step >= 2: obj.add(v.new, v.n2)           # a new component
+        rho = obj.mass_density.value('g/cm3'); n = obj.number_density.value('cm-3')
+        Munit = obj.composite_mass.value('g')
+        dens_cgs = v.d * ref_units(v.u1)[0] / ref_units('g/cm3' if v.mode == 'mass' else 'cm-3')[0]
+        out.append((f'step {step}: given density is reported unchanged', O.close(rho if v.mode == 'mass' else n, dens_cgs)))
+        out.append((f'step {step}: rho = n * mass of one formula unit', O.close(rho, n * Munit)))
+        dm = obj.data_matter(quantity=False)
+        names = [k for k in dm.keys() if k not in ('avg', 'sum')]
+        out.append((f'step {step}: sum of component mass densities = rho', O.close(sum(dm[k].rho for k in names), rho)))
+        for k in names:
+            out.append((f'step {step}: n[{k}] = amount * n', O.close(dm[k].n, obj.components[k].proportion * n)))
+        Vcm3 = v.V * ref_units(v.w1)[0] / ref_units('cm3')[0]
+        mass = obj.mass.value('g')
+        out.append((f'step {step}: mass = rho * V', O.close(mass, rho * Vcm3)))
+        out.append((f'step {step}: sum of component masses = mass', O.close(sum(dm[k].M for k in names), mass)))
+    return out
+'''
 # input given in (density unit u1, volume unit w1); the same physical input re-expressed in (u2, w2)
 SRC = '''
 def run(v, O):
@@ -105,6 +128,14 @@ def scenarios(tier, seed):
                 S.append(Scenario(f'{kind}/{spec if isinstance(spec, str) else "+".join(spec)}/{norm}/{mode}/{"vol" if vol else "novol"}', SRC, inp, pre,
                                   consts={'kind': kind, 'spec': spec, 'norm': norm, 'mode': mode, 'natural': i % 2 == 0, 'u1': u1, 'u2': u2, 'w1': w1, 'w2': w2},
                                   preamble=PRE, what=f'{kind} {spec} with {mode} density in {u1}' + (f' and volume in {w1}' if vol else ''), samples=1))
+    for j, (kind, spec, norm, existing, new) in enumerate([('substance', 'H2O', None, 'O', 'C'), ('material', ['H2O', 'NaCl'], 'NUMBER_FRACTION', 'H2O', 'CO2'),
+                                                          ('subdict', ['H', 'O'], None, 'H', 'N'), ('material', ['N2', 'O2', 'Ar'], 'NUMBER', 'Ar', 'He')]):
+        for mode in ('mass', 'number'):
+            u1 = {'mass': 'kg/m3', 'number': 'm-3'}[mode]
+            inp = {'d': 'real', 'V': 'real', 'n1': 'real', 'n2': 'real', 'n3': 'real'}
+            S.append(Scenario(f'add/{kind}/{j}/{mode}', ADD_SRC, inp, ['v.d > 0', 'v.V > 0', 'v.n1 > 0', 'v.n2 > 0', 'v.n3 > 0'],
+                              consts={'kind': kind, 'spec': spec, 'norm': norm, 'mode': mode, 'natural': j % 2 == 0, 'u1': u1, 'w1': 'l', 'existing': existing, 'new': new},
+                              preamble=PRE, what=f'{kind} {spec} with {mode} density, then add({existing}) and add({new})', samples=1))
     S.append(Scenario('canary/mass', SRC.replace("O.close(mass, rho * Vcm3)", "O.close(mass, 1.001 * rho * Vcm3)"), {'d': 'real', 'V': 'real'}, ['v.d > 0', 'v.V > 0'],
                       consts={'kind': 'substance', 'spec': 'H2O', 'norm': None, 'mode': 'mass', 'natural': True, 'u1': 'kg/m3', 'u2': 'g/cm3', 'w1': 'l', 'w2': 'cm3'}, preamble=PRE, canary=True))
     return S
